@@ -1,11 +1,78 @@
 import PydjinniModel.Drv.FrontJson
+import PydjinniModel.Front.Spec
 /-! Driver handlers for property C05 (and the shared multi-file front end op `c05.front`). -/
 namespace Pydjinni.Drv.C05
 open Lean Pydjinni.Front Pydjinni.Drv.FrontJson
 
+structure ImplDiag where
+  cls : String
+  file : String
+  pos : Pos
+deriving BEq
+
+def decodeImplDiag (j : Json) : Except String ImplDiag := do
+  let cls ← j.getObjValAs? String "cls"
+  let file ← j.getObjValAs? String "file"
+  let pos ← getPos j "p"
+  pure { cls := cls, file := file, pos := pos }
+
+def sameSite (a : ImplDiag) (d : Diag) : Bool := a.cls == d.cls && a.file == d.file && a.pos == d.pos
+
+/-- the whole program of a front request: every IDL file, parsed; `none` if some file is outside the grammar -/
+def programOf (fs : List (APath × FileContent)) : Option (List ProgFile) :=
+  fs.foldr (fun (p, c) acc =>
+    match c, acc with
+    | .idl text, some l =>
+      match parseText text with
+      | some f => some ({ file := showPath p, contents := f.contents } :: l)
+      | none => none
+    | .idl _, none => none
+    | _, acc => acc) (some [])
+
+def extRegistry (fs : List (APath × FileContent)) : Registry :=
+  fs.flatMap (fun (_, c) => match c with
+    | .ext defs => defs.map (fun d => { key := d.key, prim := d.prim, arity := d.arity })
+    | _ => [])
+
+/-- `spec.C05` on an implementation observation -/
+def spec (req : Json) : Except String Json := do
+  let cfg ← req.getObjVal? "cfg" >>= decodeCfg
+  let files ← req.getObjValAs? (Array Json) "files"
+  let fs ← files.toList.mapM decodeFile
+  let bs ← req.getObjValAs? (Array Json) "builtins"
+  let builtins ← bs.toList.mapM decodeDef
+  let impl ← req.getObjVal? "impl"
+  let kind ← impl.getObjValAs? String "kind"
+  match programOf fs with
+  | none => pure (Json.mkObj [("holds", kind == "diags"), ("note", "syntax"), ("rules", strsJ ["syntax"])])
+  | some prog =>
+    let pre := builtins ++ extRegistry fs
+    let dups := duplicateSites pre prog
+    if !dups.isEmpty then
+      let ok := kind == "raised" && (match decodeImplDiag impl with
+        | .ok d => d.cls == "TypeResolvingException" && dups.any (fun (f, p) => f == d.file && p == d.pos)
+        | .error _ => false)
+      pure (Json.mkObj [("holds", ok), ("note", "duplicate declaration"), ("rules", strsJ ["duplicate"]),
+        ("duplicates", Json.arr (dups.map (fun (f, p) => Json.mkObj [("file", f), ("p", posJ p)])).toArray)])
+    else
+      let v := violations cfg.keys cfg.defaultDeriving pre prog
+      let idiags ← (if kind == "diags" then do
+          let a ← impl.getObjValAs? (Array Json) "diags"
+          a.toList.mapM decodeImplDiag
+        else pure [])
+      let missing := v.filter (fun d => !idiags.any (fun a => sameSite a d))
+      let extra := idiags.filter (fun a => !v.any (fun d => sameSite a d))
+      let ok := (kind == "ok" || kind == "diags") && missing.isEmpty && extra.isEmpty && (kind == "ok") == v.isEmpty
+      pure (Json.mkObj [("holds", ok),
+        ("missing", Json.arr (missing.map diagJ).toArray),
+        ("extra", Json.arr (extra.map (fun a => Json.mkObj [("cls", a.cls), ("file", a.file), ("p", posJ a.pos)])).toArray),
+        ("rules", strsJ ((missing.map (·.rule)) ++ (if extra.isEmpty then [] else ["unexpected-diagnostic"]) ++ (if kind != "ok" && kind != "diags" then [kind] else []))),
+        ("violations", v.length)])
+
 def handle (op : String) (req : Json) : Except String Json :=
   match op with
   | "c05.front" => runFront req
+  | "c05.spec" => spec req
   | _ => throw s!"unknown op {op}"
 
 end Pydjinni.Drv.C05
